@@ -43,6 +43,7 @@
      ShadowAfterPolicy   the shadowing draw is added AFTER the small-distance handling (a returned loss can be < 0)
      ZeroInArrayAsUnit   a zero distance inside an ARRAY gets the loss of the unit distance instead of the policy
      PlotRestoresPolicyFromShadow / PlotRaiseLeavesShadowOff   the plot helper does not leave the object as it was
+     FlagsSharedAcrossObjects   the option flags are shared by all path-loss objects of the process
      ClampLostInFortranLayout   the clamp does not reach matrices that are not C-ordered
      LinearArrayIgnoresRaise    the linear array query never raises under the raise policy
 
@@ -64,6 +65,8 @@ CONSTANTS Model,     \* "general" | "3gpp1" | "freespace" | "metis" | "hata"
           ArrSets,   \* sequence of [ks |-> Seq(Int), ws |-> Seq(Nat)] : array queries
           KMin, KMax,\* decades of distance
           Enc,       \* [x1, x2, kf |-> <<lo, hi>>] rational enclosures of X1, X2, log10(c/(4000 pi))
+          WithBy,     \* BOOLEAN: does this instance have a bystander object
+          ByClasses,  \* set of class names a bystander is constructed from
           PlotIdx,    \* indices into ArrSets: the distance arrays handed to the plot helper
           ShadowVals, \* subset of BOOLEAN : values of the use_shadow_bool setter
           SigmaVals,  \* sequence of Rat >= 0   : values of the sigma_shadow setter (0 = shadowing without effect)
@@ -110,21 +113,28 @@ LogFc5(f)  == IF f.m = 5 THEN FC(R(f.e - 3)) ELSE FAdd(FC(R(f.e - 3)), X1)
 NoFc       == [m |-> 1, e |-> 0]
 
 (* ----------------------------------------- state ------------------------------------------ *)
-VARIABLES ph, n, fc, C, hbs, hms, area, pol, shadow, sigma, out
-vars == <<ph, n, fc, C, hbs, hms, area, pol, shadow, sigma, out>>
+VARIABLES ph, n, fc, C, hbs, hms, area, pol, shadow, sigma, out,
+          bph, bpol, bshadow     \* a BYSTANDER: a second live path-loss object (any class) with its own two option flags
+vars == <<ph, n, fc, C, hbs, hms, area, pol, shadow, sigma, out, bph, bpol, bshadow>>
+BV == <<bph, bpol, bshadow>>
 P    == [ph |-> ph, n |-> n, fc |-> fc, fcv |-> FcVal(fc), C |-> C, hbs |-> hbs, hms |-> hms,
-         area |-> area, pol |-> pol, shadow |-> shadow, sigma |-> sigma]
+         area |-> area, pol |-> pol, shadow |-> shadow, sigma |-> sigma, bph |-> bph, bpol |-> bpol, bshadow |-> bshadow]
 PN   == [ph |-> ph', n |-> n', fc |-> fc', fcv |-> FcVal(fc'), C |-> C', hbs |-> hbs', hms |-> hms',
-         area |-> area', pol |-> pol', shadow |-> shadow', sigma |-> sigma']
+         area |-> area', pol |-> pol', shadow |-> shadow', sigma |-> sigma', bph |-> bph', bpol |-> bpol', bshadow |-> bshadow']
 Params == <<n, fc, C, hbs, hms, area, pol, shadow, sigma>>
 
 Init == /\ ph = "new" /\ n = RZero /\ fc = NoFc /\ C = FZ /\ hbs = RZero /\ hms = RZero
         /\ area = "" /\ pol = FALSE /\ shadow = FALSE /\ sigma = R(8) /\ out = "init"
+        /\ bph = "new" /\ bpol = FALSE /\ bshadow = FALSE
 
 \* documented constant of the free-space class:  C = 10 n (log10(fc 1e6) - K0)
 CFrom(nn, f) == FScale(LMul(R(10), nn), FSub(FAdd(LogFc(f), FC(R(6))), X1))
 
 Live == ph = "live"
+\* the expected answers of the queries do not depend on the bystander: they are emitted once, from the states without one,
+\* and the replay looks them up by the object's own part of the state (so they are asked in every bystander situation)
+\* (the invariants about the object's answers are likewise evaluated in the states without a bystander: they do not mention it)
+QOK == bph = "new"
 \* with shadowing switched on (and sigma > 0) a returned loss is det + sigma z, z a standard normal draw
 Random == shadow /\ sigma # RZero
 f_ok(f) == f.m > 0 /\ FcOnLat(f)
@@ -224,6 +234,8 @@ Construct(i) ==
   LET a == InitArgs[i] IN
   /\ ph = "new" /\ ph' = "live" /\ pol' = FALSE /\ out' = "ok"
   /\ shadow' = FALSE /\ sigma' = R(8)                      \* use_shadow_bool = False, sigma_shadow = 8.0
+  /\ bpol' = (IF Dev.FlagsSharedAcrossObjects THEN FALSE ELSE bpol)
+  /\ bshadow' = (IF Dev.FlagsSharedAcrossObjects THEN FALSE ELSE bshadow) /\ UNCHANGED bph
   /\ CASE Model = "general"   -> n' = a.n /\ C' = FC(a.C) /\ UNCHANGED <<fc, hbs, hms, area>>
        [] Model = "3gpp1"     -> n' = D(376, 100) /\ C' = FC(D(1281, 10)) /\ UNCHANGED <<fc, hbs, hms, area>>
        [] Model = "freespace" -> n' = a.n /\ fc' = a.fc /\ C' = CFrom(a.n, a.fc) /\ UNCHANGED <<hbs, hms, area>>
@@ -234,18 +246,42 @@ Construct(i) ==
 
 SetPol(b) ==
   /\ Live /\ pol' = b /\ out' = "ok"
+  /\ bpol' = (IF Dev.FlagsSharedAcrossObjects /\ bph = "live" THEN b ELSE bpol) /\ UNCHANGED <<bph, bshadow>>
   /\ UNCHANGED <<shadow, sigma, ph, n, fc, C, hbs, hms, area>>
   /\ E(SetRec("SetPol", b, "ok"))
 
 \* use_shadow_bool / sigma_shadow: public attributes of every model (log-normal shadowing, sigma in dB)
 SetShadow(b) ==
   /\ Live /\ b \in ShadowVals /\ shadow' = b /\ out' = "ok"
+  /\ bshadow' = (IF Dev.FlagsSharedAcrossObjects /\ bph = "live" THEN b ELSE bshadow) /\ UNCHANGED <<bph, bpol>>
   /\ UNCHANGED <<ph, n, fc, C, hbs, hms, area, pol, sigma>>
   /\ E(SetRec("SetShadow", b, "ok"))
 SetSigma(i) ==
   /\ Live /\ sigma' = SigmaVals[i] /\ out' = "ok"
-  /\ UNCHANGED <<ph, n, fc, C, hbs, hms, area, pol, shadow>>
+  /\ UNCHANGED <<ph, n, fc, C, hbs, hms, area, pol, shadow>> /\ UNCHANGED BV
   /\ E(SetRec("SetSigma", SigmaVals[i], "ok"))
+
+\* ---- the bystander: another path-loss object alive in the same process (class c, any of the five), constructed before
+\* or after the object under study and configured independently.  Each object's answers depend on its OWN settings only:
+\* a bystander step leaves the object's parameters as they are, and a step of the object leaves the bystander's flags.
+\*   Dev.FlagsSharedAcrossObjects: the two option flags live on the class - every constructor resets them for all
+\*   objects and setting one object's flag sets everybody's
+ByConstruct(c) ==
+  /\ WithBy /\ bph = "new" /\ bph' = "live" /\ bpol' = FALSE /\ bshadow' = FALSE /\ out' = "by"
+  /\ pol' = (IF Dev.FlagsSharedAcrossObjects THEN FALSE ELSE pol)
+  /\ shadow' = (IF Dev.FlagsSharedAcrossObjects THEN FALSE ELSE shadow)
+  /\ UNCHANGED <<ph, n, fc, C, hbs, hms, area, sigma>>
+  /\ E([kind |-> "set", op |-> "ByConstruct", arg |-> c, out |-> "by", pre |-> P, post |-> PN, frame |-> {"BystanderUntouched"}])
+BySetPol(b) ==
+  /\ bph = "live" /\ bpol' = b /\ out' = "by"
+  /\ pol' = (IF Dev.FlagsSharedAcrossObjects /\ Live THEN b ELSE pol)
+  /\ UNCHANGED <<ph, n, fc, C, hbs, hms, area, shadow, sigma, bph, bshadow>>
+  /\ E([kind |-> "set", op |-> "BySetPol", arg |-> b, out |-> "by", pre |-> P, post |-> PN, frame |-> {"BystanderUntouched"}])
+BySetShadow(b) ==
+  /\ bph = "live" /\ bshadow' = b /\ out' = "by"
+  /\ shadow' = (IF Dev.FlagsSharedAcrossObjects /\ Live THEN b ELSE shadow)
+  /\ UNCHANGED <<ph, n, fc, C, hbs, hms, area, pol, sigma, bph, bpol>>
+  /\ E([kind |-> "set", op |-> "BySetShadow", arg |-> b, out |-> "by", pre |-> P, post |-> PN, frame |-> {"BystanderUntouched"}])
 
 SetN(i) ==
   LET v == NVals[i] IN
@@ -254,7 +290,7 @@ SetN(i) ==
        THEN /\ n' = v /\ out' = "ok"
             /\ C' = IF Dev.NSetterKeepsC THEN C ELSE CFrom(v, fc)
        ELSE /\ n' = v /\ out' = "raise" /\ C' = C           \* only reachable with FcRejectKeepsValue
-  /\ UNCHANGED <<shadow, sigma, ph, fc, hbs, hms, area, pol>>
+  /\ UNCHANGED <<shadow, sigma, ph, fc, hbs, hms, area, pol>> /\ UNCHANGED BV
   /\ E(SetRec("SetN", v, out'))
 
 SetFc(i) ==
@@ -265,7 +301,7 @@ SetFc(i) ==
   /\ fc' = IF acc \/ (Model = "freespace" /\ Dev.FcRejectKeepsValue) \/ (Model = "hata" /\ Dev.HataRejectAssigns)
              THEN v ELSE fc
   /\ C' = IF Model = "freespace" /\ acc /\ ~Dev.FcSetterKeepsC THEN CFrom(n, v) ELSE C
-  /\ UNCHANGED <<shadow, sigma, ph, n, hbs, hms, area, pol>>
+  /\ UNCHANGED <<shadow, sigma, ph, n, hbs, hms, area, pol>> /\ UNCHANGED BV
   /\ E(SetRec("SetFc", [m |-> v.m, e |-> v.e, v |-> FcVal(v)], out'))
 
 SetHbs(i) ==
@@ -273,7 +309,7 @@ SetHbs(i) ==
   /\ Live /\ "SetHbs" \in Offers(Model)
   /\ out' = IF acc THEN "ok" ELSE "raise"
   /\ hbs' = IF acc \/ Dev.HataRejectAssigns THEN v ELSE hbs
-  /\ UNCHANGED <<shadow, sigma, ph, n, fc, C, hms, area, pol>>
+  /\ UNCHANGED <<shadow, sigma, ph, n, fc, C, hms, area, pol>> /\ UNCHANGED BV
   /\ E(SetRec("SetHbs", v, out'))
 
 SetHms(i) ==
@@ -281,7 +317,7 @@ SetHms(i) ==
   /\ Live /\ "SetHms" \in Offers(Model)
   /\ out' = IF acc THEN "ok" ELSE "raise"
   /\ hms' = IF acc \/ Dev.HataRejectAssigns THEN v ELSE hms
-  /\ UNCHANGED <<shadow, sigma, ph, n, fc, C, hbs, area, pol>>
+  /\ UNCHANGED <<shadow, sigma, ph, n, fc, C, hbs, area, pol>> /\ UNCHANGED BV
   /\ E(SetRec("SetHms", v, out'))
 
 SetArea(i) ==
@@ -289,7 +325,7 @@ SetArea(i) ==
   /\ Live /\ "SetArea" \in Offers(Model)
   /\ out' = IF acc THEN "ok" ELSE "raise"
   /\ area' = IF acc \/ Dev.HataRejectAssigns THEN v ELSE area
-  /\ UNCHANGED <<shadow, sigma, ph, n, fc, C, hbs, hms, pol>>
+  /\ UNCHANGED <<shadow, sigma, ph, n, fc, C, hbs, hms, pol>> /\ UNCHANGED BV
   /\ E(SetRec("SetArea", v, out'))
 
 \* ---- queries: stuttering steps that emit the exact expected observable
@@ -297,16 +333,16 @@ QRec(op, k, w, exp) == [kind |-> "q", op |-> op, k |-> k, w |-> w, exp |-> exp, 
 WallsOf == IF Model = "metis" THEN WallVals ELSE {0}
 
 QPLdB(k, w) ==
-  /\ Live /\ Exact /\ ~Random /\ UNCHANGED vars
+  /\ QOK /\ Live /\ Exact /\ ~Random /\ UNCHANGED vars
   /\ IF w < 0 THEN k # ZK /\ E(QRec("PLdB", k, w, [t |-> "raisevalue", f |-> FZ]))   \* (zero distance AND negative walls: not fixed)
      ELSE Decided(k, w) /\ E(QRec("PLdB", k, w, Outcome(k, w)))
 
 QPL(k, w) ==
-  /\ Live /\ Exact /\ ~Random /\ w >= 0 /\ Decided(k, w) /\ UNCHANGED vars
+  /\ QOK /\ Live /\ Exact /\ ~Random /\ w >= 0 /\ Decided(k, w) /\ UNCHANGED vars
   /\ E(QRec("PL", k, w, [t |-> Outcome(k, w).t, f |-> Outcome(k, w).f, lin |-> LinOf(Outcome(k, w))]))
 
 QPLdBArr(i) ==
-  /\ Live /\ Exact /\ ~Random /\ ArrDecided(ArrSets[i]) /\ UNCHANGED vars
+  /\ QOK /\ Live /\ Exact /\ ~Random /\ ArrDecided(ArrSets[i]) /\ UNCHANGED vars
   /\ E([kind |-> "q", op |-> "PLdBArr", ks |-> ArrSets[i].ks,
         ws |-> IF Model = "metis" THEN ArrSets[i].ws ELSE <<>>, exp |-> ArrOutcome(ArrSets[i]), pre |-> P, post |-> P,
         \* one wall count for all distances (>= 0): the query may equally be issued with that SCALAR count
@@ -325,26 +361,26 @@ PlotOK(a) == ArrDecided(a) /\ (Model = "metis" => \A j \in 1..Len(a.ws) : a.ws[j
 QPlot(i) ==
   LET a == ArrSets[i]
       o == ArrOutcome(a) IN
-  /\ Live /\ Exact /\ PlotOK(a)
+  /\ QOK /\ Live /\ Exact /\ PlotOK(a)
   /\ out' = IF o.t = "raise" THEN "plotraise" ELSE "plot"
   /\ pol' = IF Dev.PlotRestoresPolicyFromShadow THEN shadow ELSE pol
   /\ shadow' = IF Dev.PlotRaiseLeavesShadowOff /\ o.t = "raise" THEN FALSE ELSE shadow
-  /\ UNCHANGED <<ph, n, fc, C, hbs, hms, area, sigma>>
+  /\ UNCHANGED <<ph, n, fc, C, hbs, hms, area, sigma>> /\ UNCHANGED BV
   /\ E([kind |-> "set", op |-> "Plot", arg |-> [ks |-> a.ks], out |-> out', exp |-> o, pre |-> P, post |-> PN,
         frame |-> FrameQ \cup {"RejectedChangesNothing"}])
 
 QWhichDistDB(k) ==
-  /\ Live /\ Exact /\ ~Random /\ UNCHANGED vars
+  /\ QOK /\ Live /\ Exact /\ ~Random /\ UNCHANGED vars
   /\ IF InvOffered THEN E(QRec("WhichDistDB", k, 0, [t |-> "dist", f |-> Det(k, 0), k |-> Inv(Det(k, 0))]))
                    ELSE k = KMin /\ E(QRec("WhichDistDB", k, 0, [t |-> "notoffered"]))
 
 QWhichDist(k) ==
-  /\ Live /\ Exact /\ ~Random /\ InvOffered /\ Decided(k, 0) /\ Outcome(k, 0).t = "val" /\ FSign(Det(k, 0)) = 1
+  /\ QOK /\ Live /\ Exact /\ ~Random /\ InvOffered /\ Decided(k, 0) /\ Outcome(k, 0).t = "val" /\ FSign(Det(k, 0)) = 1
   /\ UNCHANGED vars
   /\ E(QRec("WhichDist", k, 0, [t |-> "dist", k |-> Inv(Det(k, 0))]))
 
 QFriis(k) ==
-  /\ Live /\ Exact /\ ~Random /\ Model = "freespace" /\ n = R(2) /\ FSign(Det(k, 0)) = 1 /\ UNCHANGED vars
+  /\ QOK /\ Live /\ Exact /\ ~Random /\ Model = "freespace" /\ n = R(2) /\ FSign(Det(k, 0)) = 1 /\ UNCHANGED vars
   /\ E(QRec("Friis", k, 0, [t |-> "val", f |-> Det(k, 0), tol |-> D(1, 100)]))
 
 \* Okumura-Hata 'large city': a(hms) = 3.2 (log10(11.75 hms))^2 - 4.97 above 300 MHz, 8.29 (log10(1.54 hms))^2 - 1.10
@@ -361,7 +397,7 @@ LargeCity ==
 \* repeated: the harness issues every array query with the caller's own float64 ndarray, requires the array to be
 \* bit-identical afterwards, re-uses it for a second identical call and requires the same result.
 QRel ==
-  /\ Live /\ UNCHANGED vars
+  /\ QOK /\ Live /\ UNCHANGED vars
   /\ E([kind |-> "q", op |-> "Rel", pre |-> P, post |-> P, exact |-> Exact, random |-> Random, frame |-> FrameQ,
         dets |-> IF Exact THEN [w \in WallsOf \ {-1} |-> [k \in Ks |-> Det(k, w)]] ELSE <<>>, kmin |-> KMin,
         slope |-> [w \in WallsOf \ {-1} |-> Slope(w)],
@@ -377,6 +413,9 @@ QRel ==
 Next == \/ \E i \in 1..Len(InitArgs) : Construct(i)
         \/ \E b \in BOOLEAN : SetPol(b)
         \/ \E b \in BOOLEAN : SetShadow(b)
+        \/ \E c \in ByClasses : ByConstruct(c)
+        \/ \E b \in BOOLEAN : BySetPol(b)
+        \/ \E b \in BOOLEAN : BySetShadow(b)
         \/ \E i \in 1..Len(SigmaVals) : SetSigma(i)
         \/ \E i \in 1..Len(NVals) : SetN(i)
         \/ \E i \in 1..Len(FcVals) : SetFc(i)
@@ -393,7 +432,8 @@ Next == \/ \E i \in 1..Len(InitArgs) : Construct(i)
         \/ QRel
 
 (* ---------------------------------------- the property ------------------------------------ *)
-TypeOK == /\ ph \in {"new", "live"} /\ pol \in BOOLEAN /\ shadow \in BOOLEAN /\ IsRat(sigma) /\ RSgn(sigma) >= 0 /\ out \in {"init", "ok", "raise", "plot", "plotraise"}
+TypeOK == /\ ph \in {"new", "live"} /\ pol \in BOOLEAN /\ shadow \in BOOLEAN /\ IsRat(sigma) /\ RSgn(sigma) >= 0 /\ out \in {"init", "ok", "raise", "plot", "plotraise", "by"}
+          /\ bph \in {"new", "live"} /\ bpol \in BOOLEAN /\ bshadow \in BOOLEAN
           /\ IsRat(n) /\ IsRat(hbs) /\ IsRat(hms) /\ \A i \in 1..3 : IsRat(C[i])
 
 \* parameters stay admissible whatever was attempted (rejected values leave no trace)
@@ -405,12 +445,12 @@ ParamsValid ==
 \* history property: the cached constant follows (n, fc) after ANY sequence of setter calls
 CConsistent == (Live /\ Model = "freespace" /\ fc.m > 0) => C = CFrom(n, fc)
 \* ... so that the object computes what the documentation says for its current parameters
-PLisDoc == (Live /\ Exact) => \A k \in Ks : Det(k, 0) = Doc(k, 0)
+PLisDoc == (QOK /\ Live /\ Exact) => \A k \in Ks : Det(k, 0) = Doc(k, 0)
 
 WS == WallsOf \ {-1}
 \* non-decreasing in distance (strictly increasing before clamping; raise region is a prefix)
 Monotone ==
-  (Live /\ Exact) => \A w \in WS : \A k \in KMin..(KMax - 1) :
+  (QOK /\ Live /\ Exact) => \A w \in WS : \A k \in KMin..(KMax - 1) :
       /\ FSign(FSub(Det(k + 1, w), Det(k, w))) = 1
       /\ FSub(Det(k + 1, w), Det(k, w)) = FC(Slope(w))
       /\ (Decided(k, w) /\ Decided(k + 1, w)) =>
@@ -419,12 +459,12 @@ Monotone ==
                  => FSign(FSub(Outcome(k + 1, w).f, Outcome(k, w).f)) \in {0, 1}
 \* the linear value 10^(-dB/10) lies in (0,1]  <=>  every returned dB value is >= 0
 InUnit ==
-  (Live /\ Exact) => \A w \in WS : \A k \in Ks :
+  (QOK /\ Live /\ Exact) => \A w \in WS : \A k \in Ks :
       Decided(k, w) => /\ Outcome(k, w).t = "val" => FSign(Outcome(k, w).f) = 1
                        /\ LinOf(Outcome(k, w)) # RZero => (RSgn(LinOf(Outcome(k, w))) > 0 /\ LLe(LinOf(Outcome(k, w)), ROne))
 \* small distances: raise or clamp according to the configured policy, arrays like scalars
 Policy ==
-  (Live /\ Exact) =>
+  (QOK /\ Live /\ Exact) =>
     /\ \A w \in WS : \A k \in Ks : Decided(k, w) =>
           Outcome(k, w).t = (IF SignDet(k, w) = 1 THEN "val" ELSE IF pol THEN "zero" ELSE "raise")
     /\ Outcome(ZK, 0).t = (IF pol THEN "zero" ELSE "raise")
@@ -434,17 +474,17 @@ Policy ==
             ELSE /\ ArrOutcome(a).t = "arr"
                  /\ \A j \in 1..Len(a.ks) : ArrOutcome(a).v[j] = Outcome(a.ks[j], a.ws[j])
 LayoutIndependent ==
-  (Live /\ Exact) => \A i \in 1..Len(ArrSets) : ArrDecided(ArrSets[i]) =>
+  (QOK /\ Live /\ Exact) => \A i \in 1..Len(ArrSets) : ArrDecided(ArrSets[i]) =>
       \A lay \in Layouts : ArrOutcomeL(ArrSets[i], lay) = ArrOutcome(ArrSets[i])
 LinearAgrees ==
-  (Live /\ Exact) => \A i \in 1..Len(ArrSets) : ArrDecided(ArrSets[i]) => ArrLinT(ArrSets[i]) = ArrOutcome(ArrSets[i]).t
+  (QOK /\ Live /\ Exact) => \A i \in 1..Len(ArrSets) : ArrDecided(ArrSets[i]) => ArrLinT(ArrSets[i]) = ArrOutcome(ArrSets[i]).t
 \* the distance-for-a-loss query is the exact inverse of the loss-for-a-distance query
-InverseId == (Live /\ Exact /\ InvOffered) => \A k \in Ks : Inv(Det(k, 0)) = k
+InverseId == (QOK /\ Live /\ Exact /\ InvOffered) => \A k \in Ks : Inv(Det(k, 0)) = k
 \* free space with exponent 2 is Friis' 20 log10(4 pi d f / c) within 0.01 dB:
 \* Friis = 20 (k + log10(fc 1e6) - KF), KF = log10(c/(4000 pi)) in Enc.kf; the object has K0 in Enc.x1
 FriisForm(k) == FScale(R(20), FAdd(FC(R(k)), FAdd(LogFc(fc), FC(R(6)))))        \* without the -20 KF term
 FriisClose ==
-  (Live /\ Exact /\ Model = "freespace" /\ n = R(2)) => \A k \in Ks :
+  (QOK /\ Live /\ Exact /\ Model = "freespace" /\ n = R(2)) => \A k \in Ks :
       /\ FSub(Det(k, 0), FriisForm(k)) = <<RZero, R(-20), RZero>>
       /\ LLe(LMul(R(20), LSub(Enc.x1[2], Enc.kf[1])), D(1, 100))
       /\ LLe(LMul(R(20), LSub(Enc.kf[2], Enc.x1[1])), D(1, 100))
@@ -462,7 +502,7 @@ ShOutcome(k, w, z) ==
     ELSE IF FSign(ShVal(k, w, z)) = -1 THEN (IF pol THEN [t |-> "zero", f |-> FZ] ELSE [t |-> "raise", f |-> FZ])
          ELSE [t |-> "val", f |-> ShVal(k, w, z)]
 ShadowRange ==
-  (Live /\ Exact /\ shadow) => \A w \in WS : \A k \in Ks : \A z \in Zs :
+  (QOK /\ Live /\ Exact /\ shadow) => \A w \in WS : \A k \in Ks : \A z \in Zs :
       (FSign(ShVal(k, w, z)) # 2 /\ FSign(Det(k, w)) # 2) =>
          /\ ShOutcome(k, w, z).t = "val" => FSign(ShOutcome(k, w, z).f) \in {0, 1}
          /\ pol => ShOutcome(k, w, z).t # "raise"
@@ -470,6 +510,10 @@ ShadowRange ==
 
 \* the plot helper is a query: it leaves the object as it was, whether it draws or raises
 PlotPure == [][out' \in {"plot", "plotraise"} => Params' = Params]_vars
+
+\* two objects in one process: a step of one never shows in the other
+BystanderLaw == [][/\ out' = "by" => Params' = Params
+                   /\ out' # "by" => (bph = "live" => <<bpol, bshadow>>' = <<bpol, bshadow>>)]_vars
 
 \* a call that raises leaves the object as it was
 RejectLaw == [][out' = "raise" => Params' = Params]_vars
